@@ -35,7 +35,10 @@ def enum_decl(ed: EnumDef, derive_debug=False, doc=False, vis='pub'):
     if not ed.omit_exh:
         args += f", exhaustive {ed.spell} {ed.exhaustive}" if ed.spell == '=' else f", exhaustive: {ed.exhaustive}"
     allv = [(d, True) for d in ed.discs] + [(d, False) for d in ed.dead]
+    if ed.dead_first:
+        allv = [(d, False) for d in ed.dead] + [(d, True) for d in ed.discs]
     vs = []
+    dead_k = 0
     for d, live in allv:
         pre = ''
         if doc:
@@ -47,7 +50,12 @@ def enum_decl(ed: EnumDef, derive_debug=False, doc=False, vis='pub'):
             elif d % 2 == 1:
                 pre += "#[cfg(all())] "
         lit = fmt_disc(d)
-        vs.append(f"    {pre}V{d:x} = {lit},")
+        if live:
+            vs.append(f"    {pre}V{d:x} = {lit},")
+        else:
+            # compiled-out variants may carry the discriminant of a live one (mutually exclusive cfgs)
+            dead_k += 1
+            vs.append(f"    {pre}X{dead_k}_{d:x} = {lit},")
     rep = ''
     mx = max([d for d, _ in allv] + [0])
     if mx >= (1 << 63):
@@ -509,7 +517,7 @@ def field_to_py(f: Field):
     if f.enum is not None:
         e = f.enum
         d["enum"] = {"n": e.n, "exhaustive": e.exhaustive, "discs": [hex(x) for x in e.discs], "dead": [hex(x) for x in e.dead],
-                     "spell": e.spell, "omit_exh": e.omit_exh}
+                     "spell": e.spell, "omit_exh": e.omit_exh, "dead_first": e.dead_first}
     return d
 
 
@@ -520,7 +528,7 @@ def field_from_py(d):
     if d.get("enum"):
         e = d["enum"]
         d["enum"] = EnumDef(e["n"], e["exhaustive"], tuple(int(x, 16) for x in e["discs"]), tuple(int(x, 16) for x in e["dead"]),
-                            e["spell"], e["omit_exh"])
+                            e["spell"], e["omit_exh"], dead_first=e.get("dead_first", False))
     return Field(**d)
 
 
